@@ -104,8 +104,6 @@ def design_configs(tier):
             ("api-1c-2r", dict(NClients=1, Rounds=2, MaxEvents=0, Api="TRUE", MaxPolls=1, MaxTicks=1, MaxFires=1, NTopics=2, SpinTopics="{2}"), 16),
             ("es-3c-1r-1e", dict(NClients=3, Rounds=1, MaxEvents=1), 16),
             ("es-2c-2r-1e", dict(NClients=2, Rounds=2, MaxEvents=1), 16),
-            ("es-4c-1r-0e", dict(NClients=4, Rounds=1, MaxEvents=0), 16),
-            ("api-2c", dict(NClients=2, Rounds=1, MaxEvents=0, Api="TRUE", MaxPolls=1, MaxTicks=1, MaxFires=1), 16),
         ]
     return q
 
